@@ -453,6 +453,16 @@ func (c *EvalCtx) ident(name string) (*Val, error) {
 	if v, ok := c.bound[name]; ok {
 		return v, nil
 	}
+	if c.hdr != nil && c.fr != nil {
+		// inside a loop clause the loop-carried variable shadows the parameter of the same name
+		for _, in := range c.hdr.Instrs {
+			if phi, ok := in.(*ssa.Phi); ok && phi.Comment == name {
+				if v, ok := c.fr.env[phi]; ok {
+					return v, nil
+				}
+			}
+		}
+	}
 	if v, ok := c.vars[name]; ok {
 		return v, nil
 	}
